@@ -20,6 +20,7 @@ type heapGen struct {
 	codon bool
 	pair1 *Step
 	pair2 *Step
+	long  bool // the first object has genome-scale rows (size-dependent code paths: blocks, buffers, thresholds)
 }
 
 func newHeapGen(rng *rand.Rand, mode, tier string) *heapGen {
@@ -81,6 +82,12 @@ func (g *heapGen) alphaFor(al int) []byte {
 		return cleanNt
 	case "C06":
 		return ntResidues
+	case "C19":
+		if al == 0 && g.rng.Intn(3) == 0 {
+			// a protein alignment written with letters that are nucleotide codes too: automatic detection would call it
+			// nucleotidic, the declared alphabet says otherwise - a computation that re-detects it changes its input
+			return []byte("ACGTNacgt-")
+		}
 	case "C14", "C15":
 		// one time in three a tiny alphabet with characters that are not letters, so that a column repeats what
 		// its neighbours hold (counts carried over from one site to the next then change an answer)
@@ -193,6 +200,10 @@ func (g *heapGen) newObject(forceAlign bool) *Step {
 	L := g.lenChoice()
 	if g.mode != "C01" && g.mode != "C04" && L == 0 {
 		L = 3
+	}
+	if g.long && forceAlign {
+		nrows, kind = 2, "align"
+		L = []int{16389, 20000, 24577, 16384, 70001}[g.rng.Intn(5)]
 	}
 	alpha := g.alphaFor(al)
 	if g.mode == "C05" {
@@ -345,6 +356,9 @@ func (g *heapGen) next(h *heapRun, i int) *Step {
 		recv := 1 + g.rng.Intn(len(h.objs))
 		if len(h.objs) > 6 {
 			recv = 1 + g.rng.Intn(6)
+		}
+		if g.long && g.rng.Intn(4) != 0 {
+			recv = 1
 		}
 		o := h.objs[recv-1]
 		st := g.args(h, op, recv, o)
